@@ -161,12 +161,18 @@ Proof.
         cbn [out]. apply in_or_app. right. now left.
 Qed.
 
+Lemma feed_alive s c : dead s = false -> feed s c = drain (S (length (buf s ++ c))) (with_buf s (buf s ++ c)).
+Proof. intros H. unfold feed. now rewrite H. Qed.
+Lemma feed_dead s c : dead s = true -> feed s c = s.
+Proof. intros H. unfold feed. now rewrite H. Qed.
+
 Lemma feed_feed_or (St : stable) s a b :
   feed (feed s a) b = feed s (a ++ b) \/ (has_reply (feed s a) /\ has_reply (feed s (a ++ b))).
 Proof.
-  unfold feed at 2 3 4. destruct (dead s) eqn:Hd.
-  - left. unfold feed. now rewrite Hd.
-  - pose proof (drain_then_feed St (S (length (buf s ++ a))) (with_buf s (buf s ++ a)) b) as H.
+  destruct (dead s) eqn:Hd.
+  - left. rewrite !(feed_dead s) by exact Hd. reflexivity.
+  - rewrite (feed_alive s a Hd), (feed_alive s (a ++ b) Hd).
+    pose proof (drain_then_feed St (S (length (buf s ++ a))) (with_buf s (buf s ++ a)) b) as H.
     cbn [with_buf buf dead] in H. specialize (H ltac:(lia) Hd).
     rewrite <- app_assoc in H. unfold with_buf in *. cbn [out dead stuck] in *. exact H.
 Qed.
@@ -188,9 +194,9 @@ Lemma seg_independent_from (St : stable) : forall chunks s c0,
 Proof.
   induction chunks as [|c cs IH]; intros s c0 H; cbn [fold_left concat] in *.
   - now rewrite app_nil_r.
-  - rewrite app_assoc in H. rewrite feed_feed.
+  - rewrite app_assoc in H. rewrite (feed_feed St).
     + rewrite IH by exact H. now rewrite <- app_assoc.
-    + eapply no_reply_prefix; eauto.
+    + eapply (no_reply_prefix St); eauto.
 Qed.
 
 (* THE segmentation theorem: for a prefix-stable framer, every way of cutting a byte stream into
@@ -222,28 +228,26 @@ Lemma feed_valid_from (St : stable) : forall fs s t, dead s = false -> buf s = [
   {| buf := t; out := out s ++ map (fun fb => EFrame (fst fb)) fs; dead := false; stuck := stuck s |}.
 Proof.
   induction fs as [|[f bs] fs IH]; intros s t Hd Hb Hfs Ht.
-  - cbn [map concat app]. unfold feed. rewrite Hd, Hb. cbn [app]. rewrite app_nil_r.
-    destruct t as [|x t'].
-    + cbn. destruct s; cbn in *; subst; reflexivity.
-    + destruct Ht as [Ht|Ht]; [discriminate|]. cbn [drain with_buf buf]. rewrite Ht.
-      destruct s; cbn in *; subst; reflexivity.
+  - cbn [map concat app]. rewrite (feed_alive _ _ Hd). rewrite Hb. cbn [app]. rewrite app_nil_r.
+    unfold with_buf. rewrite Hd. destruct Ht as [Ht|Ht].
+    + subst t. apply drain_nil. reflexivity.
+    + apply drain_needmore. exact Ht.
   - inversion Hfs as [|? ? Hf Hfs']; subst. unfold frame_bytes_ok in Hf. cbn [fst snd] in Hf.
     pose proof (st_ok St _ _ _ Hf) as [Hn Hext].
     cbn [map concat snd]. rewrite <- app_assoc.
     set (rest := concat (map snd fs) ++ t).
-    unfold feed. rewrite Hd, Hb. cbn [app].
-    destruct bs as [|x bs']; [cbn [length] in Hn; lia|].
-    cbn [drain with_buf buf]. rewrite <- app_comm_cons. rewrite app_comm_cons. rewrite (Hext rest).
-    rewrite skipn_app_le by lia. rewrite skipn_all. cbn [app out dead stuck].
+    rewrite (feed_alive _ _ Hd). rewrite Hb. cbn [app].
+    assert (Hne : buf (with_buf s (bs ++ rest)) <> []).
+    { cbn [with_buf buf]. apply app_not_nil. destruct bs; [cbn [length] in Hn; lia|discriminate]. }
+    rewrite (drain_ok _ _ f (length bs) Hne (Hext rest)).
+    cbn [with_buf buf out dead stuck]. rewrite skipn_app_le by lia. rewrite skipn_all. cbn [app].
     set (s1 := {| buf := []; out := out s ++ [EFrame f]; dead := dead s; stuck := stuck s |}).
     specialize (IH s1 t Hd eq_refl Hfs' Ht). fold rest in IH.
-    unfold feed in IH. cbn [dead s1 buf app] in IH. rewrite Hd in IH.
-    transitivity (drain (S (length rest)) (with_buf s1 rest)).
-    + unfold with_buf, s1. cbn [out dead stuck].
-      destruct (Nat.eq_dec (length rest) 0) as [E0|E0].
-      * destruct rest; [|cbn in E0; lia]. destruct (length ((x :: bs') ++ [])); reflexivity.
-      * apply (drain_fuel St); cbn [buf]; rewrite ?app_length; cbn [length]; lia.
-    + rewrite IH. cbn [out fst]. rewrite <- app_assoc. reflexivity.
+    rewrite (feed_alive s1 rest Hd) in IH. unfold with_buf, s1 in IH. cbn [buf out dead stuck app] in IH.
+    rewrite <- app_assoc in IH. cbn [app] in IH. cbn [map fst]. rewrite <- IH.
+    apply (drain_fuel St).
+    + cbn [buf]. lia.
+    + rewrite app_length. lia.
 Qed.
 
 (* For every concatenation of valid frames followed by an incomplete tail, and EVERY segmentation of
@@ -256,8 +260,9 @@ Theorem seg_valid_stream (St : stable) : forall fs t chunks,
 Proof.
   intros fs t chunks Hfs Ht Hc.
   pose proof (feed_valid_from St fs init t eq_refl eq_refl Hfs Ht) as E. cbn [init out stuck app] in E.
-  rewrite seg_independent by (rewrite Hc, E; intros [f Hf]; cbn [out] in Hf; apply in_map_iff in Hf; destruct Hf as [? [? _]]; discriminate || exact St).
-  rewrite Hc. exact E.
+  assert (Hnr : no_reply (feed init (concat chunks))).
+  { rewrite Hc, E. intros [f Hf]. cbn [out] in Hf. apply in_map_iff in Hf. destruct Hf as [? [? _]]. discriminate. }
+  rewrite (seg_independent St chunks Hnr). rewrite Hc. exact E.
 Qed.
 
 End Seg.
